@@ -333,6 +333,28 @@ theorem stepWait_forged (c : α) (s : WSt α) (e : Ev α) (h : e.src ≠ c) : st
   | fail f => have : ¬ f = c := h; split <;> simp [failFrom, this]
 
 
+theorem dedup_mem (l : List α) (x : α) : x ∈ dedup l ↔ x ∈ l := by
+  induction l with
+  | nil => simp [dedup]
+  | cons y ys ih =>
+    simp only [dedup]
+    split
+    · next h => rw [ih]; constructor
+                · intro hx; exact List.mem_cons_of_mem _ hx
+                · intro hx; rcases List.mem_cons.1 hx with rfl | hx
+                  · exact ih.1 h
+                  · exact hx
+    · simp [ih]
+
+theorem dedup_nodup (l : List α) : (dedup l).Nodup := by
+  induction l with
+  | nil => simp [dedup]
+  | cons y ys ih =>
+    simp only [dedup]
+    split
+    · exact ih
+    · next h => exact List.nodup_cons.2 ⟨h, ih⟩
+
 theorem initiateT_snd (key : α → Nat) (cfg : ICfg α) (evs : List (Arr α)) :
     ∀ (rs : List α) (n m : Nat), (initiateTFrom key cfg rs evs n).map Prod.snd =
       (initiateFrom key cfg rs (readiesOf evs) m).map Prod.snd := by
@@ -417,6 +439,13 @@ theorem coordinator_is_max (key : α → Nat) (l : List α) (c : α) (h : static
     · exact Nat.le_refl _
     · exact List.rel_of_pairwise_cons hs hx
 
+/-- **C07-1 (local view).** Two relayers holding the same key share elect the same coordinator whatever peers their
+    own libp2p peerstores happen to contain (and in whatever order they list the holders). -/
+theorem election_ignores_local_view (key : α → Nat) (h₁ h₂ ps₁ ps₂ : List α) (hp : h₁.Perm h₂)
+    (hinj : ∀ a ∈ h₁, ∀ b ∈ h₁, key a = key b → a = b) :
+    staticCoordinator key (validCoordinators h₁ ps₁) = staticCoordinator key (validCoordinators h₂ ps₂) :=
+  coordinator_agreement key h₁ h₂ hp hinj
+
 example : sortDesc (fun n : Nat => n) [3, 1, 2] = sortDesc (fun n : Nat => n) [2, 3, 1] ∧
     staticCoordinator (fun n : Nat => n) [3, 1, 2] = some 3 := by decide
 
@@ -450,6 +479,36 @@ theorem announces_when_enough (key : α → Nat) (cfg : ICfg α) (hself : cfg.se
   · intro q hq; obtain ⟨a, b, c, d⟩ := hE q hq; exact ⟨a, b, c, by simpa using d⟩
   · simp [rpLen, readyParticipants, hself]; omega
 
+/-- **C07-2 (the announcement as a whole).** Whatever the collecting loop does satisfies `AnnouncedOk`: a subset that is
+    announced meets the C07 clause, and nothing is announced only if fewer than t distinct eligible key holders reported
+    ready (or the threshold is 0). This is the predicate the driver evaluates on the implementation's outcome. -/
+theorem initiate_announcedOk (key : α → Nat) (cfg : ICfg α) (hself : cfg.self ∈ cfg.holders)
+    (hex : cfg.self ∉ cfg.excluded) (arrivals : List α) :
+    AnnouncedOk cfg arrivals ((initiate key cfg arrivals).map Prod.snd) := by
+  cases h : initiate key cfg arrivals with
+  | some r =>
+    obtain ⟨n, S⟩ := r
+    exact announced_subset_ok key cfg hself hex arrivals n S h
+  | none =>
+    show enoughReady cfg arrivals = false
+    cases he : enoughReady cfg arrivals with
+    | false => rfl
+    | true =>
+      exfalso
+      simp only [enoughReady, Bool.and_eq_true, decide_eq_true_eq] at he
+      have hnd := dedup_nodup (arrivals.filter fun p =>
+        decide (p ∈ cfg.holders) && decide (p ∉ cfg.excluded) && decide (p ≠ cfg.self))
+      have hlive := announces_when_enough key cfg hself he.1 arrivals ((eligibleReporters cfg arrivals).take cfg.t)
+        (List.Nodup.sublist (List.take_sublist _ _) hnd)
+        (by rw [List.length_take]; exact Nat.min_eq_left he.2)
+        (by
+          intro q hq
+          have hq' := (dedup_mem _ q).1 (List.mem_of_mem_take hq)
+          simp only [List.mem_filter, Bool.and_eq_true, decide_eq_true_eq] at hq'
+          exact ⟨hq'.1, hq'.2.1.1, hq'.2.1.2, hq'.2.2⟩)
+      rw [h] at hlive
+      simp at hlive
+
 example : ([1, 2] : List Nat).Nodup ∧ (∀ q ∈ ([1, 2] : List Nat), q ∈ [7, 4, 1, 1, 0, 3, 2] ∧ q ∈ [0, 1, 2, 3, 4] ∧ q ∉ [4] ∧ q ≠ 0) := by
   decide
 
@@ -479,6 +538,11 @@ theorem announced_subset_ok_with_ticks (key : α → Nat) (cfg : ICfg α) (hself
     obtain ⟨m, S'⟩ := r
     rw [hi] at h1; simp at h1; subst h1
     exact announced_subset_ok key cfg hself hex (readiesOf evs) m S hi
+
+theorem initiateT_announcedOk (key : α → Nat) (cfg : ICfg α) (hself : cfg.self ∈ cfg.holders)
+    (hex : cfg.self ∉ cfg.excluded) (evs : List (Arr α)) :
+    AnnouncedOk cfg (readiesOf evs) ((initiateT key cfg evs).map Prod.snd) := by
+  rw [ticks_change_nothing]; exact initiate_announcedOk key cfg hself hex (readiesOf evs)
 
 example : initiateT (fun n : Nat => n) ⟨0, [0, 1, 2, 3], 2, []⟩ [.ready 1, .tick, .tick, .ready 3, .ready 2] = some (4, [3, 1, 0]) := by
   decide
